@@ -754,7 +754,21 @@ theorem baseOf_ok {vs : List Val} {b : Str} (h : baseOf vs = .ok (some b)) :
   | [some v], h =>
     simp only [popSingle] at h
     split at h
-    · next hv => cases h; exact ⟨rfl, hv⟩
+    · next hv => cases h; exact ⟨rfl, by simp at hv; exact hv.1⟩
+    · cases h
+  | _ :: _ :: _, h => simp [popSingle] at h
+
+/-- … and holds no `>` -/
+theorem baseOf_noGt {vs : List Val} {b : Str} (h : baseOf vs = .ok (some b)) :
+    b.contains 62 = false := by
+  unfold baseOf at h
+  match vs, h with
+  | [], h => simp [popSingle] at h
+  | [none], h => simp [popSingle] at h
+  | [some v], h =>
+    simp only [popSingle] at h
+    split at h
+    · next hv => cases h; simp at hv; simpa using hv.2
     · cases h
   | _ :: _ :: _, h => simp [popSingle] at h
 
@@ -782,6 +796,30 @@ theorem updateParams_bad_base {now : Nat} {reg : Reg} {remote : Option Str} {q :
       · rcases h with h | ⟨b, h, hb⟩
         · simp [h, baseOf, popSingle]
         · simp [h, baseOf, popSingle, hb]
+
+/-- … or that has a parameter whose name is no link-format parmname (audit-F fix) -/
+theorem updateParams_bad_name {now : Nat} {reg : Reg} {remote : Option Str} {q : Query}
+    {ini : Bool} (h : ∃ e ∈ q, parmnameOk e.1 = false) :
+    ∃ e, updateParams now reg remote q ini = .error e := by
+  obtain ⟨e, he, hn⟩ := h
+  have : q.any (fun e => !parmnameOk e.1) = true := List.any_eq_true.mpr ⟨e, he, by simp [hn]⟩
+  unfold updateParams
+  simp [this]
+
+/-- … or whose `base` holds a `>` (audit-F fix) -/
+theorem updateParams_gt_base {now : Nat} {reg : Reg} {remote : Option Str} {q : Query}
+    {ini : Bool} (h : ∃ b, vals sBase q = [some b] ∧ b.contains 62 = true) :
+    ∃ e, updateParams now reg remote q ini = .error e := by
+  unfold updateParams
+  split
+  · exact ⟨_, rfl⟩
+  · split
+    · exact ⟨_, rfl⟩
+    · split
+      · exact ⟨_, rfl⟩
+      · obtain ⟨b, h, hb⟩ := h
+        have hm : 62 ∈ b := by simpa using hb
+        simp [h, baseOf, popSingle, hm]
 
 /-- an explicit base in a registration is one `urlsplit` accepts, if that held before -/
 theorem updateParams_base {now : Nat} {reg : Reg} {remote : Option Str} {q : Query} {ini : Bool}
